@@ -166,6 +166,8 @@ type SrvWorld struct {
 	PingsSent          int
 	peerGone           bool // the peer has closed its sending side
 	ctlQueue           [][]byte
+	offenceCut         bool // the connection was cut before the offence could be delivered
+	ExtraViol          []*Violation
 
 	// receive-side ledger of the peer (C06): SETTINGS_INITIAL_WINDOW_SIZE / MAX_FRAME_SIZE values the
 	// peer has sent, in order; ackedSettings of them have been acknowledged by the server
